@@ -1166,6 +1166,35 @@ pub fn generate(ctx: &Ctx, prop: &str, rng: &mut Rng64, thorough: bool, index: u
         }
         "C18" => {
             case.rng_constant = Some(0x0000_0000_5eed_5eed);
+            if rng.chance(120) {
+                // game 1 ends on the board: the final (mated) position is searched and
+                // collected; the new game then reaches a position one move before it
+                let (pred, term) = loop {
+                    let p = corpus::tb_win_in(rng, &ctx.tb, 1);
+                    let mates: Vec<Mv> = p.legal_moves().into_iter().filter(|m| p.make(*m).is_checkmate()).collect();
+                    if let Some(m) = mates.first() {
+                        break (p.clone(), p.make(*m));
+                    }
+                };
+                case.dims = (8, 1024);
+                let mut s: Vec<UStep> = Vec::new();
+                s.push(UStep::Line(format!("position fen {}", term.fen())));
+                s.push(UStep::Line(format!("go depth {}", 1 + rng.below(3))));
+                s.push(UStep::Settle(60_000));
+                match rng.below(3) {
+                    0 => s.push(UStep::Line("stop".to_string())),
+                    1 => s.push(UStep::Line(format!("position fen {}", pred.fen()))),
+                    _ => {}
+                }
+                s.push(UStep::Line("ucinewgame".to_string()));
+                case.probe_from = Some(s.len());
+                s.push(UStep::Line(format!("position fen {}", pred.fen())));
+                s.push(UStep::Line(format!("go depth {}", 2 + rng.below(3))));
+                s.push(UStep::Settle(400_000));
+                s.push(UStep::Line("quit".to_string()));
+                case.script = s;
+                return case;
+            }
             // a table in which the short searches of the new game displace nothing: the
             // comparison must not depend on how keys happen to be routed
             case.dims = (8, 1024);
